@@ -352,7 +352,7 @@ CONFIG = {
     "post_model": _c15_vm_sample,
     "timeout_search": 1500,
     "assumptions": [
-        "net/url is MODELLED on byte strings for a judged subset (Model/PagingUrl.v: Parse of a reference incl. scheme detection, first-segment-colon and bad-escape errors, host[:port] authorities, ResolveReference with Go 1.26 dot-segment removal, re-parse by http.NewRequest; fragments, user info, valid %-escapes or exotic bytes in a path, non-ASCII, opaque URLs are UNJUDGED) and compared with the real client on every followed link (raw path + raw query, byte for byte) and on random references; the association-list theorems (C15_exactly_once ...) still quantify over an abstract `render`/`resolve`, connected to the string level by C15_next_request_link_forms (forms </p?q>, <?q>, <http://h/p?q>, <//h/p?q>) and C15_next_request_dot_relative (<./seg?q>), C15_step_simulation and the all-histories refinement C15_string_loop_refines (hypotheses: the server answers indistinguishable requests alike; net/url-as-modelled and the abstract resolver agree on the links served)",
+        "net/url is MODELLED on byte strings for a judged subset (Model/PagingUrl.v: Parse of a reference incl. scheme detection, first-segment-colon and bad-escape errors, host[:port] authorities, ResolveReference with Go 1.26 dot-segment removal, re-parse by http.NewRequest; fragments, user info, valid %-escapes or exotic bytes in a path, non-ASCII, opaque URLs are UNJUDGED) and compared with the real client on every followed link (raw path + raw query, byte for byte) and on random references; the association-list theorems (C15_exactly_once ...) still quantify over an abstract `render`/`resolve`, connected to the string level by C15_next_request_link_forms (forms </p?q>, <?q>, <http://h/p?q>, <//h/p?q>) and C15_next_request_dot_relative (<./seg?q>), C15_step_simulation and the all-histories refinement C15_string_loop_refines (hypotheses: the server answers indistinguishable requests alike; net/url-as-modelled and the abstract resolver agree on the links served); since the second extension round qset appends a replaced parameter at the end exactly like setQueryParams, so the typed reading (n as a number, lenient url.Values parse) of the raw request is literally the model's request (C15_request_query_exact), and C15_string_loop_exact gives the all-histories refinement WITHOUT the 'answers alike' hypothesis for any registry that is fed that typed reading (it may echo every parameter into its links); the concrete theorems C15_exactly_once_concrete_forms / C15_filter_concrete_forms let the registry choose per answer among the five link forms </p?q>, <?q>, <http://host/p?q>, <//host/p?q>, <./last?q>",
         "encoding/json: WHERE the first value of the stream ends is modelled (Model/PagingJson.v scan: brackets counted outside strings, leading white space) and compared with json.Decoder.InputOffset on generated valid object/array documents, all their prefixes, documents followed by more input, and on the bodies of the listings themselves (the declared document length = the decoder's = the scanner's); the self-delimiting property is a THEOREM of that scanner (C15_json_self_delimiting, C15_limit_bytes_scan: behind limitReader a document is decoded completely when it fits, not at all otherwise); the grammar inside the brackets and the mapping to Go values (which items a document decodes to, `null`, ill-typed fields) stay declared by the generator (well-formed?, decoded items)",
         "queries: the association-list model (url.Values.Set = replace) is refined by the string model of setQueryParams / QueryEscape / QueryUnescape (C15_set_query_params_verbatim, _read, C15_request_query_refines: for every key a registry looks up it reads what the association-list request says; lookup = first match of a lenient parse, as fakereg.ParseQueryLenient); bytes are < 256; the pre-fix lossy url.Values round trip is kept as mk_request_prefix (C15_lossy_query_refuted)",
         "the registry model's meaning of `last`: items after the entry named last; an unknown name is placed before the first greater item (= all greater items on a sorted registry, C15_last_on_sorted_registry); item names are non-empty and distinct",
@@ -370,7 +370,7 @@ CONFIG = {
         "content/oci listTags is modelled on the resolver map as a list of (reference, digest of its descriptor) in any order; Go string order = byte-wise lexicographic order",
     ],
     "level_text": "Coq theorems for all item lists, split oracles, caps, page sizes, values of last, Link renderings and filter announcements: Tags/Repositories/Referrers deliver exactly the registry's suffix after last (resp. the referrers of the requested artifact type), once, in order, within |suffix|+1 requests; a failing callback truncates the listing at that invocation with its error; pages come only from documents that fit MaxMetadataBytes (<= 0 = regenerated default), at most that many bytes pass the reader; Repository.Referrers takes its callback arguments from exactly one of the API and the tag schema, returns a callback error unchanged and sets the capability once (after fix a06e319); the referrers tag-schema fallback rejects an index over the limit and otherwise delivers the filtered referrers of the cleaned index (no empty entry, no descriptor twice) in one non-empty page; content/oci listTags is the sorted set of non-digest references greater than last for every map order. Model tied to registry/remote and content/oci by a differential run against an in-process fake registry (PRNG split oracle, five Link forms, malformed stream) and an independent oracle",
-    "level_note": "C15_exactly_once_concrete: for registries writing </path?escaped query> links, exactly-once (Tags/Repositories, any page size, any cursor kind, hidden entries, extra link parameters) is proved with net/url AS MODELLED (resolve_ref) and no hypothesis on rendering/resolution left; the same for Referrers (C15_filter_concrete); for the other link forms the abstract render/resolve hypotheses remain, connected by C15_next_request_link_forms / _dot_relative / C15_step_simulation; the refinement loop_s -> loop needs servers whose answers depend on a request only through key lookups (Hserve), which excludes registries echoing parameters verbatim in another order (covered by the correspondence only). string level (net/url subset, setQueryParams, escaping, loop_s) modelled, corresponded on raw requests and proved to refine the association-list loop; the composition with the registry theorems is via the hypotheses of C15_exactly_once_string_loop (server coherence, link coherence), discharged per step for four link forms (C15_step_simulation). the clause `no more than MaxMetadataBytes is read` is a theorem about a model of limitReader + decoder buffering that is compared with the real byte count on every decoded answer (tag-schema index reads and error bodies: oracle only / not judged). net/url resolution and encoding/json are hypotheses of the theorems (checked by the harness on every followed link / around the limit); transport, auth and manifest fetching of the tag-schema fallback are not modelled; Link relation types are ignored by the code (known finding link-rel-ignored)",
+    "level_note": "C15_exactly_once_concrete: for registries writing </path?escaped query> links, exactly-once (Tags/Repositories, any page size, any cursor kind, hidden entries, extra link parameters) is proved with net/url AS MODELLED (resolve_ref) and no hypothesis on rendering/resolution left; the same for Referrers (C15_filter_concrete), and for registries choosing per answer among the five forms </p?q>, <?q>, <http://host/p?q>, <//host/p?q>, <./last?q> (C15_exactly_once_concrete_forms, C15_filter_concrete_forms); for links to another path or host and redirect hops the abstract render/resolve hypotheses remain, connected by C15_next_request_link_forms / _dot_relative / C15_step_simulation; the refinement loop_s -> loop needs servers whose answers depend on a request only through key lookups (Hserve), which excludes registries echoing parameters verbatim in another order (covered by the correspondence only). string level (net/url subset, setQueryParams, escaping, loop_s) modelled, corresponded on raw requests and proved to refine the association-list loop; the composition with the registry theorems is via the hypotheses of C15_exactly_once_string_loop (server coherence, link coherence), discharged per step for four link forms (C15_step_simulation). the clause `no more than MaxMetadataBytes is read` is a theorem about a model of limitReader + decoder buffering that is compared with the real byte count on every decoded answer (tag-schema index reads and error bodies: oracle only / not judged). net/url resolution and encoding/json are hypotheses of the theorems (checked by the harness on every followed link / around the limit); transport, auth and manifest fetching of the tag-schema fallback are not modelled; Link relation types are ignored by the code (known finding link-rel-ignored)",
     "technique": "machine-checked proof in Coq (induction over the page loop against a nondeterministic registry; prefix/refinement for callback failure; sorting) + translator-regenerated constants + model/implementation correspondence against harness/fakereg",
     "explanation": "theorems over all lists/splits/links about the model of the page loops, parseLink, limitReader, filterReferrers and listTags; constants regenerated from registry/remote; model and real client run on the same fake-registry scripts (requests, callback arguments, outcome compared), the fake registry's pages compared with the registry model; independent exactly-once / stop-on-error / over-read / truncation / sortedness oracle",
 }
